@@ -22,6 +22,7 @@ def h3_mux_job(ctx):
     s = ctx.tlc("MCDgramReader", "MCDgramReader.cfg", name="MCDgramReader.h3", workers=2, timeout=600, coverage=False)
     ctx.spec_must_hold(s)
     r = ctx.harness("c07h3", ["--vectors", s["out"], "--max", "32" if ctx.thorough else "12"], name="c07h3", env={"VERIF_ROOT": ROOT}, timeout=900)
+    # (+ CONNECT _icmp: three echo requests to loopback addresses through the real ICMP forwarder on lo, same segmentations)
     if r["counters"].get("flows_round_trips", 0) == 0 and not r.get("violations") and not any("watchdog" in n for n in r.get("notes", [])):
         raise ToolError("no round trip through the HTTP/3 multiplexer was made")
     return r
